@@ -40,13 +40,15 @@ TRUSTED = [
 ASSUMPTIONS = [
     "survey depths are non-decreasing and not negative (the stated domain); collar, depths and values are small dyadic rationals",
     "survey tables are stored as float32 by the library: depths/angles are chosen exactly representable",
+    "the model follows the repaired validate_depth_data (fixes/C18-depth-after-interval-misaligned.patch: DEPTH padded to n_vertices before "
+    "matching); on a tree without it the oracle reports depth-after-interval-misaligned",
     "the model follows the repaired compute_deviation (/repo commit 9179588 = fixes/C18-divide-uninitialised.patch); on a tree without it "
     "the oracle reports divide-where-uninitialised (poisoned-output probe) and off-path positions beyond a zero-length last leg",
 ]
 RULE = (
     "survey tables of 1-6 rows (default table, single row, first depth 0 or > 0, equal consecutive depths) with axis-aligned "
     "directions (azimuth multiple of 90, dip in {-90, 0, 90}) for the correspondence and arbitrary angles for the oracle; query depths "
-    "at, between and beyond the stations and 0; histories of 1-5 add_data calls mixing depth and from-to data with depths that repeat, "
+    "at, between and beyond the stations and 0; histories of 1-3 add_data calls, each with 1-3 depth / from-to data sets (later sets of a call repeating depths of earlier ones, arrays in unsorted logging order), with depths that repeat, "
     "collocate within / outside the tolerance (default 0.01 and explicit ones), arrive unsorted and overlap earlier intervals. "
     "non-trivial = at least two stations with different directions, or a history with a collocated or unsorted addition"
 )
@@ -169,51 +171,81 @@ def _near(rng, pool, tol):
     return rng.range(0, 160) * 0.25
 
 
-def gen_data(rng, wild):
-    """wild: repeated depths inside one call / collisions allowed (oracle only when the model cannot express them)."""
-    s = gen_surveys(rng, True)
-    ops, pool, ipool = [], [], []
-    nops = rng.range(1, 5)
-    for k in range(nops):
-        tol = rng.choice(TOLS)
-        if rng.chance(60):
-            n = rng.range(1, 5)
-            ds = []
-            for _ in range(n):
-                d = max(0.0, _near(rng, pool, tol))
-                if not wild:
-                    t = 0.01 if tol is None else tol
-                    if any(abs(d - e) < 2 * t + 1e-12 for e in ds):
-                        continue
-                ds.append(d)
-            if not ds:
-                ds = [rng.range(0, 160) * 0.25]
-            if wild and rng.chance(25):
-                ds.append(rng.choice(ds))  # the same depth twice in one call
-            vals = [None if rng.chance(8) else rng.range(-50, 50) * 0.5 for _ in ds]
-            ops.append({"op": "depth", "name": k, "depth": ds, "values": vals, "tol": tol})
-            pool += ds
-        else:
-            n = rng.range(1, 4)
-            fts = []
-            for _ in range(n):
-                if ipool and rng.chance(35):
-                    f, t = rng.choice(ipool)
-                    if rng.chance(40):
-                        f += (1 / 256 if tol is None else tol / 4)
-                else:
-                    f = max(0.0, _near(rng, pool + [x for p in ipool for x in p], None))
-                    t = f + rng.choice([0.5, 1.0, 2.0, 0.25])
-                if not wild and any(abs(f - a) + abs(t - b) < 2 for a, b in fts):
+def _gen_sub(rng, wild, name, tol, pool, ipool, share=None):
+    """one data set; `share`: an earlier data set of the same call whose depths / intervals are partly repeated."""
+    kind = share["op"] if share is not None else ("depth" if rng.chance(60) else "interval")
+    if kind == "depth":
+        n = rng.range(1, 5)
+        ds = []
+        if share is not None:
+            ds = [d for d in share["depth"] if rng.chance(60)]
+        for _ in range(n):
+            d = max(0.0, _near(rng, pool, tol))
+            if not wild:
+                t = 0.01 if tol is None else tol
+                if any(abs(d - e) < 2 * t + 1e-12 for e in ds):
                     continue
-                fts.append([f, t])
-            if not fts:
-                f = rng.range(0, 160) * 0.25
-                fts = [[f, f + 1.0]]
-            vals = [None if rng.chance(8) else rng.range(-50, 50) * 0.5 for _ in fts]
-            ops.append({"op": "interval", "name": k, "ft": fts, "values": vals, "tol": tol})
-            ipool += [tuple(x) for x in fts]
-    return {"kind": "data", "collar": gen_collar(rng), "surveys": s, "ops": ops}
+            ds.append(d)
+        if not ds:
+            ds = [rng.range(0, 160) * 0.25]
+        if wild and rng.chance(25):
+            ds.append(rng.choice(ds))  # the same depth twice in one data set
+        if rng.chance(70):
+            ds = rng.shuffle(ds)  # logging order, not sorted
+        vals = [None if rng.chance(8) else rng.range(-50, 50) * 0.5 for _ in ds]
+        return {"op": "depth", "name": name, "depth": ds, "values": vals}
+    n = rng.range(1, 4)
+    fts = []
+    if share is not None:
+        fts = [list(p) for p in share["ft"] if rng.chance(60)]
+    for _ in range(n):
+        if ipool and rng.chance(35):
+            f, t = rng.choice(ipool)
+            if rng.chance(40):
+                f += (1 / 256 if tol is None else tol / 4)
+        else:
+            f = max(0.0, _near(rng, pool + [x for p in ipool for x in p], None))
+            t = f + rng.choice([0.5, 1.0, 2.0, 0.25])
+        if not wild and any(abs(f - a) + abs(t - b) < 2 for a, b in fts):
+            continue
+        fts.append([f, t])
+    if not fts:
+        f = rng.range(0, 160) * 0.25
+        fts = [[f, f + 1.0]]
+    if rng.chance(60):
+        fts = rng.shuffle(fts)
+    vals = [None if rng.chance(8) else rng.range(-50, 50) * 0.5 for _ in fts]
+    return {"op": "interval", "name": name, "ft": fts, "values": vals}
+
+
+def gen_data(rng, wild):
+    """a history of add_data calls, each with 1-3 data sets (validated in turn, sorted once at the end of the call).
+    wild: repeated depths inside one data set / collisions allowed (oracle only when the model cannot express them)."""
+    s = gen_surveys(rng, True)
+    calls, pool, ipool, name = [], [], [], 0
+    for _ in range(rng.range(1, 4)):
+        tol = rng.choice(TOLS)
+        subs = []
+        for k in range(rng.weighted([(1, 55), (2, 33), (3, 12)])):
+            share = None
+            if subs and rng.chance(65):
+                share = rng.choice(subs)  # a later data set of the call repeats depths of an earlier one
+            sub = _gen_sub(rng, wild, name, tol, pool, ipool, share)
+            name += 1
+            subs.append(sub)
+            if sub["op"] == "depth":
+                pool += sub["depth"]
+            else:
+                ipool += [tuple(x) for x in sub["ft"]]
+        calls.append({"tol": tol, "subs": subs})
+    return {"kind": "data", "collar": gen_collar(rng), "surveys": s, "calls": calls}
+
+
+def _calls(case):
+    """histories are lists of calls; corpus files written before multi-data-set calls existed list single ops."""
+    if "calls" in case:
+        return case["calls"]
+    return [{"tol": op["tol"], "subs": [{k: v for k, v in op.items() if k != "tol"}]} for op in case["ops"]]
 
 
 def generate(rng, tier):
@@ -231,6 +263,22 @@ def generate(rng, tier):
         {"kind": "desurvey", "exact": True, "collar": [1, 2, 3], "surveys": None, "queries": [0, 1, 4]},
         {"kind": "desurvey", "exact": True, "collar": [1, 2, 3], "surveys": [[0, 0, -90], [10, 90, 0], [10, 0, 0], [20, 0, -90]],
          "queries": [0, 5, 10, 15, 20, 25]},
+    ]
+    # two depth data sets in ONE call: the first in logging (unsorted) order, the second sharing depths with it; and the
+    # from-to analogue; and a from-to set followed by a depth set while DEPTH exists
+    cases += [
+        {"kind": "data", "collar": [100, 200, 300], "surveys": [[0, 0, -90], [40, 90, 0], [80, 0, -90]], "calls": [
+            {"tol": None, "subs": [
+                {"op": "depth", "name": 0, "depth": [75, 15, 45, 105, 30], "values": [7.5, 1.5, 4.5, 10.5, 3.0]},
+                {"op": "depth", "name": 1, "depth": [15, 60, 30, 90, 105], "values": [-15, -60, -30, -90, -105]}]}]},
+        {"kind": "data", "collar": [0, 0, 0], "surveys": None, "calls": [
+            {"tol": None, "subs": [
+                {"op": "interval", "name": 0, "ft": [[30, 31], [10, 12], [20, 21]], "values": [3, 1, 2]},
+                {"op": "interval", "name": 1, "ft": [[10, 12], [40, 41], [30, 31]], "values": [-1, -4, -3]}]}]},
+        {"kind": "data", "collar": [0, 0, 0], "surveys": None, "calls": [
+            {"tol": None, "subs": [{"op": "depth", "name": 0, "depth": [10, 5], "values": [1, 2]}]},
+            {"tol": None, "subs": [{"op": "interval", "name": 1, "ft": [[1, 2]], "values": [7]},
+                                   {"op": "depth", "name": 2, "depth": [20, 5], "values": [3, 4]}]}]},
     ]
     for _ in range(1500 if thorough else 120):
         cases.append(gen_data(rng, wild=False))
@@ -331,21 +379,24 @@ def _drive_data(case, ws):
     w = _mk_hole(ws, case)
     res = {"steps": []}
     vnames, cnames = [], []
-    for k, op in enumerate(case["ops"]):
-        vals = np.array([float("nan") if v is None else float(v) for v in op["values"]])
-        kw = {} if op["tol"] is None else {"collocation_distance": float(op["tol"])}
-        try:
-            if op["op"] == "depth":
-                w.add_data({f"v{op['name']}": {"depth": np.array(op["depth"], dtype=float), "values": vals}}, **kw)
-                vnames.append(op["name"])
+    for k, call in enumerate(_calls(case)):
+        kw = {} if call["tol"] is None else {"collocation_distance": float(call["tol"])}
+        data = {}
+        for sub in call["subs"]:
+            vals = np.array([float("nan") if v is None else float(v) for v in sub["values"]])
+            if sub["op"] == "depth":
+                data[f"v{sub['name']}"] = {"depth": np.array(sub["depth"], dtype=float), "values": vals}
             else:
-                w.add_data({f"c{op['name']}": {"from-to": np.array(op["ft"], dtype=float), "values": vals}}, **kw)
-                cnames.append(op["name"])
+                data[f"c{sub['name']}"] = {"from-to": np.array(sub["ft"], dtype=float).reshape((-1, 2)), "values": vals}
+        try:
+            w.add_data(data, **kw)
         except Exception as e:  # noqa: BLE001
             res["error"] = type(e).__name__
             res["msg"] = str(e)[:200]
             res["at"] = k
             break
+        for sub in call["subs"]:
+            (vnames if sub["op"] == "depth" else cnames).append(sub["name"])
         res["steps"].append(_rows(w, vnames, cnames))
     return res
 
@@ -389,15 +440,18 @@ def _crow(r):
 
 
 def _ops_term(case):
-    out = []
-    for op in case["ops"]:
-        tol = cq(0.01 if op["tol"] is None else op["tol"])
-        vals = clist(coq_oq(v) for v in op["values"])
-        if op["op"] == "depth":
-            out.append(f"AddDepth {cnat(op['name'])} {clist(cq(d) for d in op['depth'])} {vals} {tol}")
-        else:
-            out.append(f"AddInterval {cnat(op['name'])} {clist('(%s, %s)' % (cq(f), cq(t)) for f, t in op['ft'])} {vals} {tol}")
-    return clist(out)
+    calls = []
+    for call in _calls(case):
+        tol = cq(0.01 if call["tol"] is None else call["tol"])
+        out = []
+        for op in call["subs"]:
+            vals = clist(coq_oq(v) for v in op["values"])
+            if op["op"] == "depth":
+                out.append(f"AddDepth {cnat(op['name'])} {clist(cq(d) for d in op['depth'])} {vals} {tol}")
+            else:
+                out.append(f"AddInterval {cnat(op['name'])} {clist('(%s, %s)' % (cq(f), cq(t)) for f, t in op['ft'])} {vals} {tol}")
+        calls.append(clist(out))
+    return clist(calls)
 
 
 def case_term(case, obs):
@@ -438,7 +492,7 @@ def model_term(case):
         return "(locations dir_exact %s %s, map (desurvey dir_exact %s %s) %s)" % (
             cv3(case["collar"]), _table(case), cv3(case["collar"]), _table(case), clist(cq(q) for q in case["queries"]))
     collar, table, ops = cv3(case["collar"]), _table(case), _ops_term(case)
-    return f"(hole_expressible {collar} {table} empty_hole {ops}, let h := hrun (pos_exact {collar} {table}) empty_hole {ops} in (vrows h, crows h))"
+    return f"(let h := hrunc (pos_exact {collar} {table}) empty_hole {ops} in (vrows h, crows h))"
 
 
 # ----------------------------------------------------------------------------- oracle (property text)
@@ -523,61 +577,73 @@ def _oracle_desurvey(case, obs):
 
 def _oracle_data(case, obs):
     fails = []
+    calls = _calls(case)
     if "error" in obs:
-        return [{"key": f"add-data-refused-{case['ops'][obs['at']]['op']}", "what": f"op {obs['at']} raised {obs['error']}: {obs.get('msg')}"}]
+        return [{"key": "add-data-refused", "what": f"call {obs['at']} raised {obs['error']}: {obs.get('msg')}"}]
     if not _sorted_table(case) or not _exact_table(case["surveys"]):
         return fails
     path = _Path(case["collar"], case["surveys"], True)
-    added_v, added_c = [], []  # (name, depth, value, tol, op index) / (name, f, t, value, tol, op index)
-    for k, (op, st) in enumerate(zip(case["ops"], obs["steps"])):
-        tol = Fraction(0.01) if op["tol"] is None else Fraction(op["tol"])
+    added_v, added_c = [], []  # (name, j, depth, value, tol, call, before, rivals) / (name, j, f, t, value, tol, call, before, rivals)
+    vorder, corder = [], []
+    had_depth = False
+    for k, (call, st) in enumerate(zip(calls, obs["steps"])):
+        tol = Fraction(0.01) if call["tol"] is None else Fraction(call["tol"])
         vrows, crows = st["vrows"], st["crows"]
+        kinds = [sub["op"] for sub in call["subs"]]
+        # the recorded (repaired) defect: a from-to data set validated before a depth data set of the same call while DEPTH exists
+        mixed = had_depth and any(a == "interval" and "depth" in kinds[i + 1:] for i, a in enumerate(kinds))
         # every vertex with a depth sits at the position of that depth
         for i, r in enumerate(vrows):
             if not _is_exact(r) or any(x is None for x in r[1]):
-                fails.append({"key": "vertex-inexact", "what": f"after op {k}: vertex {i} = {r}"})
+                fails.append({"key": "vertex-inexact", "what": f"after call {k}: vertex {i} = {r}"})
                 return fails
             if r[0] is not None and tuple(Fraction(x) for x in r[1]) != path.pos(Fraction(r[0])):
-                fails.append({"key": "vertex-not-at-depth", "what": f"after op {k}: vertex {i} has DEPTH {r[0]} but sits at {r[1]}"})
+                key = "depth-after-interval-misaligned" if mixed else "vertex-not-at-depth"
+                fails.append({"key": key, "what": f"after call {k}: vertex {i} has DEPTH {r[0]} but sits at {r[1]}"})
                 return fails
         # every cell joins the positions of its from / to
         for c, r in enumerate(crows):
             if r[0] is None or r[1] is None or r[2] is None or r[3] is None or not _is_exact(r):
-                fails.append({"key": "cell-dangling", "what": f"after op {k}: cell {c} = {r}"})
+                fails.append({"key": "cell-dangling", "what": f"after call {k}: cell {c} = {r}"})
                 return fails
             if tuple(Fraction(x) for x in r[0]) != path.pos(Fraction(r[2])) or tuple(Fraction(x) for x in r[1]) != path.pos(Fraction(r[3])):
-                fails.append({"key": "cell-not-joining-from-to", "what": f"after op {k}: cell {c} FROM {r[2]} TO {r[3]} joins {r[0]} - {r[1]}"})
+                fails.append({"key": "cell-not-joining-from-to", "what": f"after call {k}: cell {c} FROM {r[2]} TO {r[3]} joins {r[0]} - {r[1]}"})
                 return fails
         # the values of this and of every earlier call are attached to their depth / interval
         prev = obs["steps"][k - 1] if k else {"vrows": [], "crows": []}
-        if op["op"] == "depth":
-            before = [Fraction(r[0]) for r in prev["vrows"] if r[0] is not None]
-            added_v += [(op["name"], j, Fraction(d), v, tol, k, before) for j, (d, v) in enumerate(zip(op["depth"], op["values"])) if v is not None]
-        else:
-            before = [(Fraction(r[2]), Fraction(r[3])) for r in prev["crows"]]
-            added_c += [(op["name"], j, Fraction(f), Fraction(t), v, tol, k, before) for j, ((f, t), v) in enumerate(zip(op["ft"], op["values"])) if v is not None]
-        vorder = [o["name"] for o in case["ops"][:k + 1] if o["op"] == "depth"]
-        corder = [o["name"] for o in case["ops"][:k + 1] if o["op"] == "interval"]
-        for name, j, d, v, t, kk, before in added_v:
+        before_v = [Fraction(r[0]) for r in prev["vrows"] if r[0] is not None]
+        before_c = [(Fraction(r[2]), Fraction(r[3])) for r in prev["crows"]]
+        for sub in call["subs"]:
+            if sub["op"] == "depth":
+                ds = [Fraction(d) for d in sub["depth"]]
+                added_v += [(sub["name"], j, d, v, tol, k, list(before_v), ds) for j, (d, v) in enumerate(zip(ds, sub["values"])) if v is not None]
+                before_v += ds  # what later data sets of the same call are matched against
+                vorder.append(sub["name"])
+                had_depth = True
+            else:
+                fts = [(Fraction(f), Fraction(t)) for f, t in sub["ft"]]
+                added_c += [(sub["name"], j, f, t, v, tol, k, list(before_c), fts) for j, ((f, t), v) in enumerate(zip(fts, sub["values"])) if v is not None]
+                before_c += fts
+                corder.append(sub["name"])
+        for name, j, d, v, t, kk, before, ds in added_v:
             col = vorder.index(name)
             ok = any(r[0] is not None and abs(Fraction(r[0]) - d) < t and r[2][col] is not None and Fraction(r[2][col]) == Fraction(v) for r in vrows)
             if not ok:
-                # the recorded defect: another entry of the same call collocates with the same already existing vertex
+                # the recorded defect: another entry of the same data set collocates with the same already existing vertex
                 cands = [c for c in before if abs(c - d) < t]
-                rival = any(j2 != j and any(abs(Fraction(e) - c) < t for c in cands) for j2, e in enumerate(case["ops"][kk]["depth"]))
+                rival = any(j2 != j and any(abs(e - c) < t for c in cands) for j2, e in enumerate(ds))
                 key = "depth-value-lost-collision" if rival else "depth-value-lost"
-                fails.append({"key": key, "what": f"after op {k}: value {v} added at depth {float(d)} by op {kk} (data v{name}) is attached to no vertex within {float(t)}"})
+                fails.append({"key": key, "what": f"after call {k}: value {v} added at depth {float(d)} by call {kk} (data v{name}) is attached to no vertex within {float(t)}"})
                 return fails
-        for name, j, f, tt, v, t, kk, before in added_c:
+        for name, j, f, tt, v, t, kk, before, fts in added_c:
             col = corder.index(name)
             ok = any(r[2] is not None and (Fraction(r[2]) - f) ** 2 + (Fraction(r[3]) - tt) ** 2 < t * t and r[4][col] is not None
                      and Fraction(r[4][col]) == Fraction(v) for r in crows)
             if not ok:
                 cands = [(a, b) for a, b in before if (a - f) ** 2 + (b - tt) ** 2 < t * t]
-                rival = any(j2 != j and any((Fraction(a) - cf) ** 2 + (Fraction(b) - ct) ** 2 < t * t for cf, ct in cands)
-                            for j2, (a, b) in enumerate(case["ops"][kk]["ft"]))
+                rival = any(j2 != j and any((a - cf) ** 2 + (b - ct) ** 2 < t * t for cf, ct in cands) for j2, (a, b) in enumerate(fts))
                 key = "interval-value-lost-collision" if rival else "interval-value-lost"
-                fails.append({"key": key, "what": f"after op {k}: value {v} added on [{float(f)}, {float(tt)}] by op {kk} (data c{name}) is attached to no cell within {float(t)}"})
+                fails.append({"key": key, "what": f"after call {k}: value {v} added on [{float(f)}, {float(tt)}] by call {kk} (data c{name}) is attached to no cell within {float(t)}"})
                 return fails
     return fails
 
@@ -596,17 +662,20 @@ def nontrivial(case, obs):
     if case["kind"] == "desurvey":
         return len({(r[1] % 360, r[2]) for r in s}) >= 2
     seen = []
-    for op in case["ops"]:
-        ds = op["depth"] if op["op"] == "depth" else [x for p in op["ft"] for x in p]
-        if ds != sorted(ds) or any(abs(d - e) < 0.3 for d in ds for e in seen):
+    for call in _calls(case):
+        if len(call["subs"]) > 1:
             return True
-        seen += ds
+        for op in call["subs"]:
+            ds = op["depth"] if op["op"] == "depth" else [x for p in op["ft"] for x in p]
+            if ds != sorted(ds) or any(abs(d - e) < 0.3 for d in ds for e in seen):
+                return True
+            seen += ds
     return False
 
 
 def histogram(cases, obs):
     h = {"kind": {}, "rows": {}, "first_depth_zero": 0, "repeated_station_depth": 0, "default_table": 0, "exact_tables": 0,
-         "ops_per_history": {}, "op_kinds": {"depth": 0, "interval": 0}, "explicit_tolerance": 0, "poison_nan": 0, "outcome": {}}
+         "ops_per_history": {}, "data_sets_per_call": {}, "op_kinds": {"depth": 0, "interval": 0}, "explicit_tolerance": 0, "poison_nan": 0, "outcome": {}}
     for c, o in zip(cases, obs):
         h["kind"][c["kind"]] = h["kind"].get(c["kind"], 0) + 1
         s = c["surveys"]
@@ -622,12 +691,16 @@ def histogram(cases, obs):
         if _exact_table(s):
             h["exact_tables"] += 1
         if c["kind"] == "data":
-            n = str(len(c["ops"]))
+            cl = _calls(c)
+            n = str(len(cl))
             h["ops_per_history"][n] = h["ops_per_history"].get(n, 0) + 1
-            for op in c["ops"]:
-                h["op_kinds"][op["op"]] += 1
-                if op["tol"] is not None:
+            for call in cl:
+                m = str(len(call["subs"]))
+                h["data_sets_per_call"][m] = h["data_sets_per_call"].get(m, 0) + 1
+                if call["tol"] is not None:
                     h["explicit_tolerance"] += 1
+                for op in call["subs"]:
+                    h["op_kinds"][op["op"]] += 1
         if isinstance(o, dict) and o.get("poison_nan"):
             h["poison_nan"] += 1
         oc = "crash" if not isinstance(o, dict) or "crash" in o else o.get("error", "ok")
